@@ -61,8 +61,80 @@ def load_factor(repo):
     return ms[0], num, den
 
 
+_MIX_SHAPE = ("a-=c;a^=rot(c,{});c+=b;b-=a;b^=rot(a,{});a+=c;c-=b;c^=rot(b,{});b+=a;"
+              "a-=c;a^=rot(c,{});c+=b;b-=a;b^=rot(a,{});a+=c;c-=b;c^=rot(b,{});b+=a;")
+_FINAL_SHAPE = ("c^=b;c-=rot(b,{});a^=c;a-=rot(c,{});b^=a;b-=rot(a,{});c^=b;c-=rot(b,{});"
+                "a^=c;a-=rot(c,{});b^=a;b-=rot(a,{});c^=b;c-=rot(b,{});")
+
+
+def _macro_body(src, name):
+    m = re.search(r"#define\s+" + name + r"\(a,b,c\)\s*\\\n\{(.*?)\n\}", src, re.S)
+    if not m:
+        raise core.GenError(f"lookup3: macro {name}(a,b,c) not found")
+    return re.sub(r"[\s\\]+", "", m.group(1))
+
+
+def _match_shape(body, shape, name):
+    rx = re.escape(shape).replace(re.escape("{}"), r"(\d+)")
+    m = re.fullmatch(rx, body)
+    if not m:
+        raise core.GenError(f"lookup3: body of {name}() is not the modelled statement sequence: {body[:120]}")
+    rots = [int(x) for x in m.groups()]
+    if any(not (0 < r < 32) for r in rots):
+        raise core.GenError(f"lookup3: rotation amount out of range in {name}()")
+    return rots
+
+
+def lookup3_constants(repo):
+    src = strip_c_comments(open(os.path.join(repo, "include", "aws", "common", "private", "lookup3.inl")).read())
+    if not re.search(r"#define\s+rot\(x,k\)\s+\(\(\(x\)<<\(k\)\)\s*\|\s*\(\(x\)>>\(32-\(k\)\)\)\)", src):
+        raise core.GenError("lookup3: rot(x,k) is not a 32-bit left rotation as modelled")
+    mix = _match_shape(_macro_body(src, "mix"), _MIX_SHAPE, "mix")
+    fin = _match_shape(_macro_body(src, "final"), _FINAL_SHAPE, "final")
+    m = re.search(r"static\s+void\s+hashlittle2\s*\(.*?\)\s*\{(.*?)\n\}", src, re.S)
+    if not m:
+        raise core.GenError("lookup3: hashlittle2 not found")
+    body = m.group(1)
+    mi = re.search(r"a\s*=\s*b\s*=\s*c\s*=\s*(0x[0-9a-fA-F]+)\s*\+\s*\(\(uint32_t\)length\)\s*\+\s*\*pc\s*;\s*c\s*\+=\s*\*pb\s*;", body)
+    if not mi:
+        raise core.GenError("lookup3: hashlittle2 initialisation is not `a=b=c=K+(uint32_t)length+*pc; c+=*pb;`")
+    if body.count("while (length > 12)") != 3 or "final(a,b,c);" not in body:
+        raise core.GenError("lookup3: hashlittle2 block structure (three `while (length > 12)` paths, then final) changed")
+    basis = int(mi.group(1), 16)
+    # callers in hash_table.c
+    hsrc = strip_c_comments(open(os.path.join(repo, "source", "hash_table.c")).read())
+    inits = {}
+    for fn, call in (("aws_hash_c_string", r"hashlittle2\(str,\s*strlen\(str\),\s*&c,\s*&b\)"),
+                     ("aws_hash_string", r"hashlittle2\(aws_string_bytes\(str\),\s*str->len,\s*&c,\s*&b\)"),
+                     ("aws_hash_byte_cursor_ptr", r"hashlittle2\(cur->ptr,\s*cur->len,\s*&c,\s*&b\)"),
+                     ("aws_hash_ptr", r"hashlittle2\(&item,\s*sizeof\(item\),\s*&c,\s*&b\)")):
+        mm = re.search(r"uint64_t\s+" + fn + r"\s*\([^)]*\)\s*\{(.*?)\n\}", hsrc, re.S)
+        if not mm:
+            raise core.GenError(f"{fn} not found in hash_table.c")
+        fb = mm.group(1)
+        mv = re.search(r"uint32_t\s+b\s*=\s*(0x[0-9a-fA-F]+)\s*,\s*c\s*=\s*(0x[0-9a-fA-F]+)\s*;", fb)
+        if not mv or not re.search(call, fb) or not re.search(r"\(\(uint64_t\)b\s*<<\s*32\)\s*\|\s*c", fb):
+            raise core.GenError(f"{fn}: not `b=K1,c=K2; hashlittle2(bytes,len,&c,&b); return (b<<32)|c` as modelled")
+        inits[fn] = (int(mv.group(1), 16), int(mv.group(2), 16))
+    if not (inits["aws_hash_c_string"] == inits["aws_hash_string"] == inits["aws_hash_byte_cursor_ptr"]):
+        raise core.GenError("the three content hashes no longer share their initial values")
+    return mix, fin, basis, inits["aws_hash_string"], inits["aws_hash_ptr"]
+
+
 def regen(ctx=None):
     repo = cbuild.REPO
+    mix, fin, basis, sinit, pinit = lookup3_constants(repo)
+    core.write_if_changed(os.path.join(core.LEAN, "AwsVerif", "Gen", "Lookup3.lean"),
+        "/- GENERATED from /repo/include/aws/common/private/lookup3.inl and source/hash_table.c by props/c02_gen.py; do not edit -/\n"
+        "namespace AwsVerif.Gen\n"
+        f"def l3MixRots : List Nat := {mix}\n"
+        f"def l3FinalRots : List Nat := {fin}\n"
+        f"def l3Basis : Nat := {basis}\n"
+        f"def l3StrInitB : Nat := {sinit[0]}\n"
+        f"def l3StrInitC : Nat := {sinit[1]}\n"
+        f"def l3PtrInitB : Nat := {pinit[0]}\n"
+        f"def l3PtrInitC : Nat := {pinit[1]}\n"
+        "end AwsVerif.Gen\n")
     vals = tolower_table(repo)
     off, prime = fnv_constants(repo)
     lit, num, den = load_factor(repo)
